@@ -348,6 +348,21 @@ fn mutate_in_place(r: &mut Rng, s: &mut Schema, depth: u32) -> Option<&'static s
             };
             Some(if k == 5 { "wrapper-removed" } else { "wrapper-kind" })
         }
+        Schema::Trait(_, def) | Schema::FnClosure(_, def) | Schema::Future(def, _, _, _) => {
+            // a change inside the definition of a trait object, closure or future: a method's return type or one
+            // of its arguments
+            if def.methods.is_empty() {
+                return None;
+            }
+            let mi = r.below(def.methods.len() as u64) as usize;
+            let m = &mut def.methods[mi];
+            if m.info.arguments.is_empty() || r.chance(1, 2) {
+                mutate_in_place(r, &mut m.info.return_value, depth + 1).map(|_| "nested-return-type")
+            } else {
+                let ai = r.below(m.info.arguments.len() as u64) as usize;
+                mutate_in_place(r, &mut m.info.arguments[ai].schema, depth + 1).map(|_| "nested-argument-type")
+            }
+        }
         Schema::Array(a) => {
             if descend {
                 mutate_in_place(r, &mut a.item_type, depth + 1)
